@@ -235,7 +235,7 @@ func (e *c18Env) Close() {
 
 type c18Reply struct {
 	code int
-	st   string // "ok" | "conflict" | "badreq" | "other" | "err5xx"
+	st   string // "ok" | "conflict" | "badreq" | "other" | "error"
 	ver  int    // X-Config-Version
 	k    string // get: kind
 	mk   int    // get: marker
@@ -261,7 +261,7 @@ func c18Class(code int) string {
 	case code == 400:
 		return "badreq"
 	case code >= 500:
-		return "err5xx"
+		return "error"
 	}
 	return "other"
 }
@@ -298,7 +298,7 @@ func c18Do(h http.Handler, op, name, kind string, mk int) c18Reply {
 			Marker int    `yaml:"marker"`
 		}
 		if err := yaml.Unmarshal(rec.Body.Bytes(), &m); err != nil {
-			r.st = "err5xx"
+			r.st = "error"
 			return r
 		}
 		r.k, r.mk = c18KindsRev[m.Kind], m.Marker
@@ -309,7 +309,7 @@ func c18Do(h http.Handler, op, name, kind string, mk int) c18Reply {
 			Marker int    `yaml:"marker"`
 		}
 		if err := yaml.Unmarshal(rec.Body.Bytes(), &l); err != nil {
-			r.st = "err5xx"
+			r.st = "error"
 			return r
 		}
 		for _, o := range l {
@@ -374,7 +374,7 @@ func TestVerifC18ApiReplay(t *testing.T) {
 			op, name, kind, mk := vx.Str(st["t"]), vx.Str(st["n"]), vx.Str(st["k"]), vx.Int(st["mk"])
 			r := c18Do(e.handlers[member], op, name, kind, mk)
 			bad := ""
-			if r.st == "err5xx" {
+			if r.st == "error" {
 				w.Raw(vx.M{"k": "server-error", "beh": bi, "step": si, "code": r.code})
 				break
 			}
